@@ -73,9 +73,23 @@ def main():
         os.remove(os.path.join(WT, dest))
         f, a = failing()
         new = sorted(f - bfail)
+        # a test that fails in the loaded full run but passes when re-run alone (mutant still applied)
+        # is timing-flaky, not a new failing test: re-run each candidate alone up to 3 times
+        still = []
+        for t in new:
+            pkg, name = t.split("::", 1)
+            passed = False
+            for _ in range(3):
+                rcx, outx = sh(f"go test -vet=off -count=1 -timeout 10m ./{pkg} -run '^{name.split('/')[0]}$' 2>&1 | tail -5")
+                if re.search(r"^ok\s", outx, re.M):
+                    passed = True; break
+            if not passed:
+                still.append(t)
+        flaky = [t for t in new if t not in still]
+        new = still
         # tests that vanished because a package panicked count as new failures too
         ok = (rc0 == 0 and rc1 != 0 and not new and not outb.strip())
-        print(f"{d}: demo_without={'PASS' if rc0 == 0 else 'FAIL'} demo_with={'FAIL' if rc1 != 0 else 'PASS'} build={'ok' if not outb.strip() else 'ERR'} new_failing_tests={new[:5]} => {'CONFIRMED' if ok else 'NOT CONFIRMED'}")
+        print(f"{d}: demo_without={'PASS' if rc0 == 0 else 'FAIL'} demo_with={'FAIL' if rc1 != 0 else 'PASS'} build={'ok' if not outb.strip() else 'ERR'} new_failing_tests={new[:5]} flaky_rerun_pass={flaky[:5]} => {'CONFIRMED' if ok else 'NOT CONFIRMED'}")
         json.dump({"confirmed": ok, "demo_without_rc": rc0, "demo_with_rc": rc1, "new_failing": new, "demo_cmd": cmd, "demo_dest": dest,
                    "base": BASE}, open(os.path.join(d, "confirm.json"), "w"), indent=1)
     reset()
